@@ -1,2 +1,246 @@
-import Tftp.Model.Sender
+import Tftp.Lemmas.SenderStep
 import Tftp.Model.Receiver
+/-!
+# C08 — Window flow control; retransmit only on timeout or gap, never on duplicate ACK
+-/
+namespace Tftp
+
+theorem sendWindow_length (rep bn : Nat) (es : List Bytes) :
+    (sendWindow rep bn es).length = rep * es.length := by
+  induction es generalizing bn with
+  | nil => simp [sendWindow]
+  | cons e es ih => simp [sendWindow, sendPacket, ih, Nat.mul_add]; omega
+
+/-- shape of what one transition emits: nothing, the handshake ERROR, or exactly the window of the
+state reached — at most `windowsize` blocks, starting at the block after the last accepted ACK -/
+theorem c08_outstanding_le_w (c : SCfg) (hb : 0 < c.b) (hw : c.w < 65536) (f : Bytes) (s : SState)
+    (h : SInv c f s) (ev : SEv) (dt : Nat) :
+    (sStep c s ev dt).2 = [] ∨ (sStep c s ev dt).2 = [illegalOp] ∨
+    ((sStep c s ev dt).2 = sendWindow c.rep (sStep c s ev dt).1.bn (sStep c s ev dt).1.win.elems ∧
+      (sStep c s ev dt).1.win.elems.length ≤ c.w ∧
+      (sStep c s ev dt).1.bn = (sStep c s ev dt).1.base % 65536) := by
+  have hinv := (step_good hb hw h ev dt).1
+  have hshape : ∀ t : SState, (sHead c t).2 = [] ∨
+      (sHead c t).2 = sendWindow c.rep (sHead c t).1.bn (sHead c t).1.win.elems := by
+    intro t; unfold sHead; split <;> simp
+  have houter : ∀ t : SState, (sOuter c t).2 = [] ∨
+      (sOuter c t).2 = sendWindow c.rep (sOuter c t).1.bn (sOuter c t).1.win.elems := by
+    intro t; unfold sOuter; split
+    · exact hshape _
+    · left; rfl
+  have key : (sStep c s ev dt).2 = [] ∨ (sStep c s ev dt).2 = [illegalOp] ∨
+      (sStep c s ev dt).2 = sendWindow c.rep (sStep c s ev dt).1.bn (sStep c s ev dt).1.win.elems := by
+    unfold sStep
+    split
+    · cases ev with
+      | ack n =>
+        simp only
+        split
+        · rcases houter { s with status := .running } with h1 | h1
+          · exact Or.inl h1
+          · exact Or.inr (Or.inr h1)
+        · exact Or.inr (Or.inl rfl)
+      | error => exact Or.inl rfl
+      | fail => exact Or.inl rfl
+      | other =>
+        rcases houter { s with status := .running } with h1 | h1
+        · exact Or.inl h1
+        · exact Or.inr (Or.inr h1)
+    · cases ev with
+      | ack n =>
+        simp only
+        split
+        · split
+          · exact Or.inl rfl
+          · rcases houter _ with h1 | h1
+            · exact Or.inl h1
+            · exact Or.inr (Or.inr h1)
+        · rcases hshape _ with h1 | h1
+          · exact Or.inl h1
+          · exact Or.inr (Or.inr h1)
+      | error => exact Or.inl rfl
+      | fail =>
+        simp only
+        split
+        · exact Or.inl rfl
+        · rcases hshape _ with h1 | h1
+          · exact Or.inl h1
+          · exact Or.inr (Or.inr h1)
+      | other =>
+        simp only
+        split
+        · exact Or.inl rfl
+        · rcases hshape _ with h1 | h1
+          · exact Or.inl h1
+          · exact Or.inr (Or.inr h1)
+    · exact Or.inl rfl
+  rcases key with k | k | k
+  · exact Or.inl k
+  · exact Or.inr (Or.inl k)
+  · exact Or.inr (Or.inr ⟨k, hinv.len_le, hinv.bn_eq⟩)
+
+/-- **a duplicate or stale acknowledgement is a no-op**: for every window size up to 65535, an ACK whose
+number is not that of an outstanding block — in particular a repetition of the last ACK — triggers
+neither a transmission nor an abort while the timeout has not elapsed; only the clock moves -/
+theorem c08_stale_ack_is_noop (c : SCfg) (hw : c.w < 65536) (f : Bytes) (s : SState) (h : SInv c f s)
+    (hrun : s.status = .running) (n dt : Nat)
+    (hstale : ¬ (n + 65536 - s.bn) % 65536 < s.win.elems.length) (ht : s.since + dt < c.timeout) :
+    sStep c s (.ack n) dt = ({ s with since := s.since + dt }, []) := by
+  have hlen : s.win.len = s.win.elems.length := by
+    unfold Window.len
+    have := h.len_le
+    exact Nat.mod_eq_of_lt (by omega)
+  unfold sStep
+  simp only [hrun, hlen, hstale, ↓reduceIte]
+  unfold sHead
+  have : ¬ (s.since + dt ≥ c.timeout) := by omega
+  simp [this, hrun]
+
+/-- the previous ACK repeated is such a stale ACK, whatever the window size (this is the statement
+that was false at `windowsize = 65535` before the repair) -/
+theorem c08_duplicate_ack_is_stale (c : SCfg) (hw : c.w < 65536) (f : Bytes) (s : SState) (h : SInv c f s) :
+    ¬ ((s.base - 1) % 65536 + 65536 - s.bn) % 65536 < s.win.elems.length := by
+  have := h.len_le
+  have := h.bn_eq
+  have := h.base_pos
+  omega
+
+/-- acknowledgements are cumulative: an ACK for the `(diff+1)`-th outstanding block slides the window
+past exactly that block, and transmission resumes with block `n + 1` at its front -/
+theorem c08_cumulative (c : SCfg) (hb : 0 < c.b) (hw : c.w < 65536) (f : Bytes) (s : SState) (h : SInv c f s)
+    (hrun : s.status = .running) (n dt : Nat)
+    (hin : (n + 65536 - s.bn) % 65536 < s.win.elems.length) :
+    (sStep c s (.ack n) dt).1.base = s.base + (n + 65536 - s.bn) % 65536 + 1 ∧
+    (sStep c s (.ack n) dt).1.bn = (n + 1) % 65536 ∧
+    ((sStep c s (.ack n) dt).1.status = .ok ∨
+      (sStep c s (.ack n) dt).2 = sendWindow c.rep ((n + 1) % 65536) (sStep c s (.ack n) dt).1.win.elems) := by
+  have hlen : s.win.len = s.win.elems.length := by
+    unfold Window.len
+    have := h.len_le
+    exact Nat.mod_eq_of_lt (by omega)
+  have h0 : SInv c f { s with since := s.since + dt } :=
+    ⟨h.base_pos, h.bn_eq, h.elems_eq, h.cur, h.fin, h.len_le, h.size_eq, h.chunk_eq, h.can_read,
+      h.filled_eq, h.retry_lt⟩
+  have hs' := slide_inv h0 n hin hw
+  obtain ⟨w', fl, hfill, hinv, _⟩ := fill_ok hb hw hs'
+  unfold sStep
+  simp only [hrun, hlen, hin, ↓reduceIte]
+  split
+  · simp [slide]
+  · unfold sOuter
+    simp only [slide] at hfill ⊢
+    rw [hfill]
+    simp only
+    unfold sHead
+    have : c.timeout + Gen.timeoutBufferMs ≥ c.timeout := by omega
+    simp [this]
+
+/-- a burst is emitted only right after an acknowledgement inside the window, or when the negotiated
+timeout has elapsed since the last transmission — never otherwise -/
+theorem c08_burst_causes (c : SCfg) (hw : c.w < 65536) (f : Bytes) (s : SState) (h : SInv c f s)
+    (hrun : s.status = .running) (ev : SEv) (dt : Nat) (hout : (sStep c s ev dt).2 ≠ []) :
+    (∃ n, ev = .ack n ∧ (n + 65536 - s.bn) % 65536 < s.win.elems.length) ∨ s.since + dt ≥ c.timeout := by
+  have hlen : s.win.len = s.win.elems.length := by
+    unfold Window.len
+    have := h.len_le
+    exact Nat.mod_eq_of_lt (by omega)
+  have hhead : ∀ t : SState, (sHead c t).2 ≠ [] → t.since ≥ c.timeout := by
+    intro t ht
+    unfold sHead at ht
+    split at ht
+    · assumption
+    · simp at ht
+  unfold sStep at hout
+  simp only [hrun] at hout
+  cases ev with
+  | ack n =>
+    simp only [hlen] at hout
+    by_cases hin : (n + 65536 - s.bn) % 65536 < s.win.elems.length
+    · exact Or.inl ⟨n, rfl, hin⟩
+    · simp only [hin, ↓reduceIte] at hout
+      exact Or.inr (hhead _ hout)
+  | error => simp at hout
+  | fail =>
+    simp only at hout
+    split at hout
+    · simp at hout
+    · exact Or.inr (hhead _ hout)
+  | other =>
+    simp only at hout
+    split at hout
+    · simp at hout
+    · exact Or.inr (hhead _ hout)
+
+/-! ## receiver: acknowledge at the latest after `windowsize` in-order blocks, and on the final block -/
+
+/-- pending blocks never reach `windowsize` between two transitions … -/
+def RPending (c : RCfg) (s : RState) : Prop :=
+  s.win.elems.length < c.w ∧ s.win.size = c.w ∧ s.win.file.canWrite = true
+
+theorem window_empty_ok (w : Window) (h : w.file.canWrite = true) :
+    ∃ w', w.empty = (w', .ok ()) ∧ w'.elems = [] ∧ w'.size = w.size ∧ w'.file.canWrite = true := by
+  unfold Window.empty
+  simp only [h, Bool.not_true, Bool.false_and, Bool.false_eq_true, ↓reduceIte]
+  refine ⟨_, rfl, rfl, rfl, ?_⟩
+  simp only
+  generalize w.elems = es
+  generalize hf : w.file = fl at h
+  clear hf
+  induction es generalizing fl with
+  | nil => simpa using h
+  | cons e es ih =>
+    simp only [List.foldl_cons]
+    apply ih
+    unfold FileSt.write
+    split <;> simp [h]
+
+/-- … and the step that receives the `windowsize`-th in-order block, or the final (short) block,
+emits the acknowledgement (after flushing: nothing stays pending) -/
+theorem c08_receiver_acks_by_w (c : RCfg) (hw1 : 1 ≤ c.w) (hw : c.w < 65536) (s : RState) (hp : RPending c s)
+    (hrun : s.status = .running) (n : Nat) (payload : Bytes) (hseq : n = (s.bn + 1) % 65536) :
+    RPending c (rStep c s (.data n payload)).1 ∧
+    ((payload.length < c.b ∨ s.win.elems.length + 1 = c.w) →
+      (rStep c s (.data n payload)).2 = ackOut c.rep n (rStep c s (.data n payload)).1.win.file ∧
+      (rStep c s (.data n payload)).1.win.elems = []) := by
+  obtain ⟨hlt, hsz, hcw⟩ := hp
+  have hlen : s.win.len = s.win.elems.length := by
+    unfold Window.len; exact Nat.mod_eq_of_lt (by omega)
+  have hadd : s.win.add payload = ({ s.win with elems := s.win.elems ++ [payload] }, .ok ()) := by
+    unfold Window.add
+    have : ¬ s.win.len = s.win.size := by rw [hlen, hsz]; omega
+    simp [this]
+  obtain ⟨w', he, hnil, hsz', hcw'⟩ := window_empty_ok { s.win with elems := s.win.elems ++ [payload] } hcw
+  unfold rStep
+  simp only [hrun, hseq, ↓reduceIte, hadd]
+  by_cases hshort : payload.length < c.b
+  · simp only [hshort, ↓reduceIte]
+    unfold markOk flushAck
+    simp only [he, hrun, ↓reduceIte]
+    refine ⟨⟨by simp [hnil]; omega, by simpa using hsz'.trans hsz, by simpa using hcw'⟩, ?_⟩
+    intro _
+    simp [hnil]
+  · simp only [hshort, ↓reduceIte]
+    by_cases hfull : s.win.elems.length + 1 = c.w
+    · have hisfull : ({ s.win with elems := s.win.elems ++ [payload] } : Window).isFull = true := by
+        unfold Window.isFull
+        simp only [List.length_append, List.length_singleton, hsz]
+        rw [hfull, Nat.mod_eq_of_lt hw]; simp
+      simp only [hisfull, ↓reduceIte]
+      unfold flushAck
+      simp only [he]
+      refine ⟨⟨by simp [hnil]; omega, by simpa using hsz'.trans hsz, by simpa using hcw'⟩, ?_⟩
+      intro _
+      simp [hnil]
+    · have hnotfull : ({ s.win with elems := s.win.elems ++ [payload] } : Window).isFull = false := by
+        unfold Window.isFull
+        simp only [List.length_append, List.length_singleton, hsz]
+        have : (s.win.elems.length + 1) % 65536 = s.win.elems.length + 1 := Nat.mod_eq_of_lt (by omega)
+        rw [this]; simp; omega
+      simp only [hnotfull, Bool.false_eq_true, ↓reduceIte]
+      refine ⟨⟨by simp; omega, by simpa using hsz, by simpa using hcw⟩, ?_⟩
+      intro hor
+      rcases hor with h1 | h1
+      · first | exact h1.elim | exact absurd h1 hshort
+      · first | exact h1.elim | exact absurd h1 hfull
+
+end Tftp
